@@ -20,7 +20,8 @@ def gen_cases_for(seed_, n):
         opts = gen.options(rng, jc["samples"], allow_dict_opts=(i % 2 == 0))
         if i % 2:
             opts["merge"] = rng.choice([[["exact"]], opts["merge"]])
-        cases.append({"i": i, "profile": jc["profile"], "models": [["Root", jc["samples"]]], "opts": opts})
+        cases.append({"i": i, "profile": jc["profile"], "models": [["Root", jc["samples"]]] + pc.maybe_second_root(rng, jc["samples"], jc["profile"], p=0.2),
+                      "opts": opts})
     return cases
 
 
